@@ -1383,3 +1383,132 @@ def _mem_swap(ctx, p, q):
     ctx.write(p, b)
     ctx.write(q, a)
     return UNIT
+
+
+# ------------------------------------------------------------------ std::cmp::Ordering
+
+_M64 = (1 << 64) - 1
+_ORD_PAY = {_M64: (), 0: (), 1: ()}
+
+
+def _ordering(lt, eq):
+    """Ordering value: Less = -1, Equal = 0, Greater = 1 (discriminant as a 64-bit value)"""
+    if lt is True:
+        return Enum(CI(_M64, 64), dict(_ORD_PAY))
+    if eq is True:
+        return Enum(CI(0, 64), dict(_ORD_PAY))
+    if lt is False and eq is False:
+        return Enum(CI(1, 64), dict(_ORD_PAY))
+    d = z3.If(zb(lt), z3.BitVecVal(_M64, 64), z3.If(zb(eq), z3.BitVecVal(0, 64), z3.BitVecVal(1, 64)))
+    return Enum(simp(d), dict(_ORD_PAY))
+
+
+def _ord_d(o):
+    return o.d if isinstance(o.d, CI) else bv(o.d)
+
+
+def _is(o, val):
+    if isinstance(o.d, CI):
+        return (o.d.v & _M64) == (val & _M64)
+    return simp(bv(o.d) == z3.BitVecVal(val & _M64, 64))
+
+
+@model(r'^<' + _INTS + r' as std::cmp::Ord>::cmp$')
+def _int_cmp(ctx, pa, pb):
+    t = re.match(r'^<(\w+) as', ctx.callee).group(1)
+    a, b = _deref_all(ctx, pa), _deref_all(ctx, pb)
+    return _ordering(ctx.ex.binop('Lt', a, b, t), ctx.ex.binop('Eq', a, b, t))
+
+
+@model(r'^<' + _INTS + r' as std::cmp::PartialOrd>::partial_cmp$')
+def _int_partial_cmp(ctx, pa, pb):
+    t = re.match(r'^<(\w+) as', ctx.callee).group(1)
+    a, b = _deref_all(ctx, pa), _deref_all(ctx, pb)
+    return some(_ordering(ctx.ex.binop('Lt', a, b, t), ctx.ex.binop('Eq', a, b, t)))
+
+
+@model(r'^std::cmp::(max|min)::<' + _INTS + r'>$')
+def _cmp_maxmin(ctx, a, b):
+    t = re.search(r'::<(\w+)>$', ctx.callee).group(1)
+    ge = ctx.ex.binop('Ge', b, a, t)
+    if '::max::' in ctx.callee:
+        return ite(ge, b, a)          # max returns the second argument when equal
+    return ite(ctx.ex.binop('Le', a, b, t), a, b)
+
+
+@model(r'^std::cmp::Ordering::reverse$')
+def _ord_reverse(ctx, o):
+    return _ordering(_is(o, 1), _is(o, 0))
+
+
+@model(r'^std::cmp::Ordering::(is_lt|is_le|is_gt|is_ge|is_eq|is_ne)$')
+def _ord_pred(ctx, o):
+    lt, eq, gt = _is(o, -1), _is(o, 0), _is(o, 1)
+    return {'is_lt': lt, 'is_le': b_or(lt, eq), 'is_gt': gt, 'is_ge': b_or(gt, eq), 'is_eq': eq, 'is_ne': b_not(eq)}[ctx.callee.rsplit('::', 1)[1]]
+
+
+@model(r'^std::cmp::Ordering::then$')
+def _ord_then(ctx, o, other):
+    eq = _is(o, 0)
+    return Enum(ite(eq, other.d, o.d), dict(_ORD_PAY))
+
+
+@model(r'^<std::cmp::Ordering as std::cmp::PartialEq>::(eq|ne)$')
+def _ord_eq(ctx, pa, pb):
+    a, b = _deref_all(ctx, pa), _deref_all(ctx, pb)
+    e = ctx.ex.binop('Eq', a.d, b.d, 'u64')
+    return e if ctx.callee.endswith('::eq') else b_not(e)
+
+
+def _by_ordering(ctx, it, clos, want_max):
+    """max_by / min_by with a comparison closure (max keeps the last of equals, min the first)"""
+    have, best = False, None
+    for g, v in _ents(ctx, it):
+        if best is None:
+            best, have = v, g
+            continue
+        pa, pb = ctx.ex.alloc(ctx.st, best), ctx.ex.alloc(ctx.st, v)
+        o = call_under(ctx, b_and(g, have), clos, [pa, pb])      # compare(best, v)
+        if o is None:
+            continue
+        better = b_not(_is(o, 1)) if want_max else _is(o, 1)     # max: v >= best ; min: v < best  (best > v)
+        take = b_and(g, b_or(b_not(have), better))
+        best = ite(take, v, best)
+        have = b_or(have, g)
+    if best is None:
+        return NONE
+    return mk_option(have, best)
+
+
+@model(r'^<.* as std::iter::Iterator>::max_by::<.*>$')
+def _iter_max_by(ctx, it, clos):
+    return _by_ordering(ctx, it, clos, True)
+
+
+@model(r'^<.* as std::iter::Iterator>::min_by::<.*>$')
+def _iter_min_by(ctx, it, clos):
+    return _by_ordering(ctx, it, clos, False)
+
+
+@model(r'^(core|std)::slice::<impl \[.*\]>::(sort_by|sort_unstable_by)::<.*>$')
+def _slice_sort_by(ctx, p, clos):
+    s, a, b = _dense(ctx, p, 'sort_by')
+    vals = [v for _, v in s.ents[a:b]]
+    if len(vals) > 12:
+        raise Unsupported('sort_by of more than 12 elements')
+    for j in range(1, len(vals)):
+        k = j
+        while k > 0:
+            pa, pb = ctx.ex.alloc(ctx.st, vals[k - 1]), ctx.ex.alloc(ctx.st, vals[k])
+            o = call_under(ctx, True, clos, [pa, pb])
+            swap = _is(o, 1)                   # left > right: move the right element left (stable)
+            if swap is False:
+                break
+            vals[k - 1], vals[k] = ite(swap, vals[k], vals[k - 1]), ite(swap, vals[k - 1], vals[k])
+            k -= 1
+    whole = ctx.deref(Ptr(p.root, p.path))
+    ents = list(s.ents)
+    for k, v in enumerate(vals):
+        ents[a + k] = (True, v)
+    ctx.write(Ptr(p.root, p.path), tuple(v for _, v in ents) if isinstance(whole, tuple) else Seq(tuple(ents)))
+    return UNIT
